@@ -3,11 +3,12 @@ CONSTANTS
   Methods = {"GET", "HEAD", "POST"}
   Versions = {"1.0", "1.0ka", "1.1"}
   Inms = {"absent", "match"}
-  Statuses = {204, 304, 404}
+  Statuses = {204, 404}
   HdrVals = {1}
-  ClVals = {1, 3}
+  ClVals = {1}
   ChunkIds = {1, 2}
   MaxBody = 100
+  InmVersions = {"1.1"}
   Prune = FALSE
   MaxHdr = 100
   L = 3
